@@ -106,8 +106,14 @@ func tamperTx(v visitFn, pre string, tx core.Transaction) {
 			tDA(v, pre+".nonce_da", &t.NonceDAMode)
 			tDA(v, pre+".fee_da", &t.FeeDAMode)
 		}
+	case *core.DeployTransaction:
+		tFelt(v, pre+".hash", &t.TransactionHash) // nothing else is committed: juno does not recompute this hash
 	case *core.DeclareTransaction:
 		tFelt(v, pre+".hash", &t.TransactionHash)
+		if t.Version.Is(0) { // hash not recomputed: only the declared hash and the signature are committed
+			tSlice(v, pre+".sig", &t.TransactionSignature)
+			return
+		}
 		tVersion(v, pre+".version", &t.Version)
 		tFelt(v, pre+".sender", &t.SenderAddress)
 		tFelt(v, pre+".nonce", &t.Nonce)
@@ -292,7 +298,7 @@ func tamperDiff(v visitFn, pre string, d *core.StateDiff) {
 	}
 }
 
-var nextVersion = map[string]string{"0.13.2": "0.13.3", "0.13.3": "0.13.2", "0.13.4": "0.13.5", "0.13.5": "0.13.6", "0.13.6": "0.13.4",
+var nextVersion = map[string]string{"0.11.0": "0.10.3", "0.11.1": "0.12.0", "0.12.3": "0.12.2", "0.13.0": "0.13.1", "0.13.1": "0.13.0", "0.13.2": "0.13.3", "0.13.3": "0.13.2", "0.13.4": "0.13.5", "0.13.5": "0.13.6", "0.13.6": "0.13.4",
 	"0.14.0": "0.14.1", "0.14.1": "0.14.0"}
 
 // forEachTamper: every single-field tampering of a committed field of b (header, transactions, receipts,
@@ -313,7 +319,9 @@ func forEachTamper(b *Built, v visitFn) {
 	tU64(v, "hdr.timestamp", &h.Timestamp)
 	v("hdr.version.sameformat", func() { h.ProtocolVersion = nextVersion[h.ProtocolVersion] })
 	v("hdr.version.otherformat", func() {
-		if h.ProtocolVersion < "0.13.4" {
+		if h.ProtocolVersion < "0.13.2" {
+			h.ProtocolVersion = "0.13.2"
+		} else if h.ProtocolVersion < "0.13.4" {
 			h.ProtocolVersion = "0.13.4"
 		} else {
 			h.ProtocolVersion = "0.13.3"
@@ -380,4 +388,50 @@ func isRehashable(name string) bool {
 		return false
 	}
 	return name[len(name)-6:] == ".value"
+}
+
+// committedIn: is the tampered field covered by what juno checks for this protocol version? The post-0.7
+// format (version < 0.13.2) hashes only number, root, sequencer, timestamp, the two counts, parent, the
+// transaction commitment (hash + signature; before 0.11.1 only invoke signatures) and the event commitment
+// (from, keys, data - not the emitting transaction); version string, gas prices, DA mode, receipts and the state
+// diff are covered only through the state root (tamperings of the diff that change the state fall to the
+// root check). Everything is committed in the >= 0.13.2 formats.
+func committedIn(b *Built, name string) bool {
+	ver := b.Block.ProtocolVersion
+	if ver >= "0.13.2" {
+		return true
+	}
+	has := func(p string) bool { return len(name) >= len(p) && name[:len(p)] == p }
+	switch {
+	case has("su.") || has("su+") || has("txs."):
+		return true
+	case has("hdr."):
+		switch name {
+		case "hdr.hash", "hdr.parent", "hdr.number", "hdr.number-1", "hdr.stateroot", "hdr.sequencer", "hdr.txcount",
+			"hdr.eventcount", "hdr.timestamp", "hdr.version.otherformat":
+			return true
+		}
+		return false
+	case has("tx."):
+		var idx int
+		var rest string
+		fmt.Sscanf(name, "tx.%d.%s", &idx, &rest)
+		if len(rest) >= 4 && rest[:4] == "sig." && ver < "0.11.1" {
+			_, isInvoke := b.Block.Transactions[idx].(*core.InvokeTransaction)
+			return isInvoke
+		}
+		return true
+	case has("rc."):
+		k := tamperKind(name)
+		switch {
+		case k == "rc.txhash", k == "rc.ev.add", k == "rc.ev.droplast", k == "rc.ev.from", k == "rc.ev.key2data":
+			return true
+		case len(k) > 11 && (k[:11] == "rc.ev.keys." || k[:11] == "rc.ev.data."):
+			return true
+		}
+		return false
+	case has("diff."):
+		return isRehashable(name)
+	}
+	return false
 }
